@@ -20,12 +20,15 @@ Inductive pstmt :=
 | PExit                      (* break / return / raise *)
 | PCont                      (* continue *)
 | PIf (c : pcond) (t e : pblock)
-| PLoop (line : N)           (* nested while (has its own entry in the list) *)
+| PLoop (id : str)           (* nested while (has its own entry in the list), referenced by its stable id *)
 with pblock :=
 | BNil
 | BCons (s : pstmt) (b : pblock).
 
-Record ploop := mkLoop { pl_line : N; pl_fn : str; pl_index : bool; pl_guard : pcond; pl_body : pblock }.
+(* pl_id = "<method>#<ordinal of the while within that method>": the ONLY key of a loop.  pl_line is the source line
+   at translation time, carried for diagnostics/reports; no definition, lemma or harness code may key on it (it moves
+   with every edit of parser.py above the loop). *)
+Record ploop := mkLoop { pl_id : str; pl_line : N; pl_fn : str; pl_index : bool; pl_guard : pcond; pl_body : pblock }.
 
 (* ---- exception coverage of a tool's execute() ---------------------------------------------------- *)
 (* a call site: source line, callee (source text of the called expression), the classes caught by each
